@@ -151,6 +151,7 @@ func attackerSig(t int, seed uint64, msg []byte, mode int) []byte {
 
 func check(c Case, r *ev.Rec) error {
 	genuine := c.SigMode == 0 && len(c.Edits) == 0
+	warmDonor(c, r)
 	var in []byte
 	switch c.Kind {
 	case "ri":
@@ -282,6 +283,53 @@ func check(c Case, r *ev.Rec) error {
 	return nil
 }
 
+// warmDonor: when the case transplants an offline block (Forge == 2), the
+// genuine structure of the donor identity - carrying the byte-identical block -
+// is parsed and verified first, as a relying party would have seen it earlier.
+// A verifier that remembers "this offline block was fine" without binding it to
+// the identity is exposed by this two-step history.
+func warmDonor(c Case, r *ev.Rec) {
+	donorSeed := func(o *gen.OfflineSpec) uint64 { return o.Seed ^ 0xbad }
+	switch c.Kind {
+	case "ls2":
+		if o := c.LS2.Header.Offline; o != nil && o.Forge == 2 {
+			d := *c.LS2
+			od := *o
+			od.Forge = 0
+			d.Header.Offline = &od
+			d.Header.Dest.KeySeed, d.Header.Dest.NullCert = donorSeed(o), false
+			m, _, _ := d.Build()
+			if ls, _, err := lease_set2.ReadLeaseSet2(m.Encode()); err == nil && ls.Verify() == nil {
+				r.Class("ls2:donor-verified-first")
+			}
+		}
+	case "meta":
+		if o := c.Meta.Header.Offline; o != nil && o.Forge == 2 {
+			d := *c.Meta
+			od := *o
+			od.Forge = 0
+			d.Header.Offline = &od
+			d.Header.Dest.KeySeed, d.Header.Dest.NullCert = donorSeed(o), false
+			m, _, _ := d.Build()
+			if ls, _, err := meta_leaseset.ReadMetaLeaseSet(m.Encode()); err == nil && ls.Verify() == nil {
+				r.Class("meta:donor-verified-first")
+			}
+		}
+	case "els":
+		if o := c.ELS.Offline; o != nil && o.Forge == 2 {
+			d := *c.ELS
+			od := *o
+			od.Forge = 0
+			d.Offline = &od
+			d.KeySeed = donorSeed(o)
+			m, _, _ := d.Build()
+			if ls, _, err := encrypted_leaseset.ReadEncryptedLeaseSet(m.Encode()); err == nil && ls.Verify() == nil {
+				r.Class("els:donor-verified-first")
+			}
+		}
+	}
+}
+
 func orLib(c Case, r *ev.Rec, modelBytes []byte) []byte {
 	if b, ok := libBase(c); ok {
 		r.Class(c.Kind + ":base-signed-by-library")
@@ -408,6 +456,9 @@ func TestProp(t *testing.T) {
 	for _, k := range []string{"ri", "ls", "ls2", "els"} {
 		ev.R().Floor(k+":base-signed-by-library", 20)
 	}
+	ev.R().Floor("ls2:donor-verified-first", 20)
+	ev.R().Floor("els:donor-verified-first", 20)
+	ev.R().Floor("meta:donor-verified-first", 10)
 	ev.R().Floor("ls2:offline", 50)
 	ev.R().Floor("els:offline", 50)
 	ev.R().Floor("meta:offline", 50)
